@@ -541,27 +541,43 @@ def c04_r5(ctx):
     else:
         from ..util import comp_struct
         x = o[0]
-        cn = [norm(m) for m in x.muts("constants_names")]
-        built = comp_struct(strip_pre(x.env.get("constants_names"))) if x.env.get("constants_names") is not None else None
-        # every name of every import: a flattening comprehension (the loader writes the extend-loop this way)
-        want_a = ("$1", [("self.imports", []), ("[n.name for n in $0.names]", [])])
-        want_b = ("$1.name", [("self.imports", []), ("$0.names", [])])
-        if built not in (want_a, want_b):
-            probs.append(f"names are collected as {built}, expected every name of every import")
-        if "constants_names.sort()" not in cn and not norm(strip_pre(x.env.get("constants_names") or ast.Constant(0))).startswith("sorted("):
-            probs.append("__all__ is not sorted")
-        mod = x.env.get("module")
-        if mod is None or norm(mod) != "ast.Module(body=self.imports, type_ignores=[])":
-            probs.append("module body is not the list of imports")
+        # the list that feeds `ast.List(elts=[ast.Constant(value=n) for n in <names>])`, whatever its local name
         app = [c for c in walk_no_nested(fi.node) if isinstance(c, ast.Call) and norm(c.func) == "module.body.append"]
         good = len(app) == 1 and isinstance(allargs(app[0])[0], ast.Call) and norm(allargs(app[0])[0].func) == "ast.Assign"
+        names_expr = None
         if good:
             a = allargs(app[0])[0]
             tv = kw(a, "targets")
             vv = kw(a, "value")
-            good = tv is not None and "'__all__'" in norm(tv) and vv is not None and norm(vv) == "ast.List(elts=[ast.Constant(value=n) for n in constants_names])"
+            good = tv is not None and "'__all__'" in norm(tv) and isinstance(vv, ast.Call) and norm(vv.func) == "ast.List"
+            el = kw(vv, "elts") if good else None
+            cs = comp_struct(el) if el is not None else None
+            good = good and cs is not None and cs[0] in ("ast.Constant(value=$0)", "ast.Constant($0)", "generate_constant(value=$0)") and len(cs[1]) == 1 and not cs[1][0][1]
+            if good:
+                names_expr = el.generators[0].iter
         if not good:
             probs.append("__all__ is not assigned the list of collected names")
+        else:
+            nm = names_expr.id if isinstance(names_expr, ast.Name) else None
+            val = strip_pre(x.deref(names_expr)) if nm is not None else strip_pre(names_expr)
+            cn = [norm(m) for m in x.muts(nm)] if nm is not None else []
+            is_sorted = False
+            if isinstance(val, ast.Call) and isinstance(val.func, ast.Name) and val.func.id == "sorted" and len(val.args) == 1 and not any(k.arg == "reverse" for k in val.keywords):
+                is_sorted = not val.keywords
+                val = strip_pre(val.args[0])
+            if any(m == f"{nm}.sort()" for m in cn):
+                is_sorted = True
+            built = comp_struct(val)
+            # every name of every import: a flattening comprehension (the loader writes the extend-loop this way)
+            want_a = ("$1", [("self.imports", []), ("[n.name for n in $0.names]", [])])
+            want_b = ("$1.name", [("self.imports", []), ("$0.names", [])])
+            if built not in (want_a, want_b):
+                probs.append(f"names are collected as {built}, expected every name of every import")
+            if not is_sorted:
+                probs.append("__all__ is not sorted")
+        mod = x.env.get("module")
+        if mod is None or norm(mod) != "ast.Module(body=self.imports, type_ignores=[])":
+            probs.append("module body is not the list of imports")
     ctx.check(not probs, key(fi, "__all__"), "; ".join(probs), fi.loc(), okmsg="__all__ = sorted names of all imports; body = imports + __all__")
     ai = ctx.repo.func("client_generators.init_file:InitFileGenerator.add_import")
     o = Interp(ai, lambda e: (True if norm(e) == "names" else False if norm(e) == "self.plugin_manager" else None), is_effect=lambda c: norm(c.func) == "self.imports.append").run()
